@@ -78,6 +78,9 @@ def cases(tier, seed):
             else:
                 for second in range(n):
                     out.append({"k": "tuples", "len": k, "first": [first, second]})
+    nw = len(space.wide_specs())
+    for i in range(nw):
+        out.append({"k": "wide", "i": i})
     return out
 
 
@@ -201,7 +204,19 @@ def run_one(case, R):
 _run_case = run_case
 
 
+def run_wide(case, R):
+    ws = space.wide_specs()
+    items = [("p", sp) for _, sp in ws]
+    i = case["i"]
+    for j in range(len(items)):
+        R.state(("wide", i, j))
+        for fname in FUNCS:
+            one_call(R, fname, [i, j], items, ())
+
+
 def run_case(case, R):  # noqa: F811
+    if case["k"] == "wide":
+        return run_wide(case, R)
     if case["k"] == "one":
         run_one(case, R)
     else:
